@@ -39,6 +39,8 @@ pub fn config_strategy(allow_filter: bool) -> BoxedStrategy<WireConfig> {
             resp_mode,
             nodes_packets,
             seqs,
+            v_session_timeout_ms: None,
+            v_session_capacity: None,
         })
         .boxed()
 }
